@@ -1102,7 +1102,7 @@ def shrink(case):
 def plan(tier):
   if tier == 'quick':
     return {'batches': 20, 'timeout': 1500, 'histories': 5, 'wall_budget_s': 360, 'cpp_ops': 6, 'cpp_only_from': 16}
-  return {'batches': 480, 'timeout': 2400, 'histories': 20, 'wall_budget_s': 1500, 'cpp_ops': 12}
+  return {'batches': 480, 'timeout': 3000, 'histories': 20, 'wall_budget_s': 1500, 'cpp_ops': 12}
 
 
 def run_batch(seed, batch, tier, scratch):
